@@ -413,3 +413,216 @@ def search_scan(mode, right_kind):
         return None
 
     return search
+
+
+# ---------------------------------------------------------------------------------------------
+# the glue around scan_binary_op: _zip, chunk_scan, grouped_reduce, _finalize_scan, dask_groupby_scan (flox/core.py)
+# ---------------------------------------------------------------------------------------------
+
+
+class GlueGhost:
+    def __init__(self):
+        self.generic_aggregate = []
+        self.chunk_reduce = []
+        self.map_blocks = []
+        self.scan = []
+        self.tokenize = []
+
+
+def scan_agg():
+    return Record("Scan", scan="nancumsum_or_fill", reduction="nansum_or_nanlast", identity=z3.Const("identity", V.Val), dtype=Opaque("agg.dtype"), mode="apply_binary_op")
+
+
+def glue_callees(g):
+    def generic_aggregate(ex, st, a, k, node):
+        out = sym_seq(f"scanned_{fresh('s').decl().name()}", V.Val)
+        st.assume(out.length == a[1].length)
+        g.generic_aggregate.append((a, dict(k), out))
+        return out
+
+    def chunk_reduce(ex, st, a, k, node):
+        groups = sym_seq(f"groups_{fresh('g').decl().name()}")
+        vals = sym_seq(f"reduced_{fresh('r').decl().name()}", V.Val)
+        st.assume(z3.And(groups.length >= 0, vals.length == groups.length))
+        g.chunk_reduce.append((a, dict(k), groups, vals))
+        return {"groups": groups, "intermediates": [vals]}
+
+    return {"AlignedArrays": callee_aligned_arrays, "ScanState": callee_scan_state, "generic_aggregate": generic_aggregate, "chunk_reduce": chunk_reduce}
+
+
+def zip_contract():
+    def params(ex):
+        return {"group_idx": sym_seq("codes"), "array": sym_seq("values", V.Val)}
+
+    def requires(ex, env):
+        return [env["array"].length == env["group_idx"].length, env["array"].length >= 0]
+
+    def ensures(ex, env, res):
+        e = env["__entry__"]
+        return [("codes_and_values_in_their_own_fields", z3.BoolVal(isinstance(res, AARec) and res.group_idx is e["group_idx"] and res.array is e["array"]))]
+
+    return Contract(qualname="_zip", file="flox/core.py", prefix="C10.zip", params=params, requires=requires, ensures=ensures, serves=("C10",)), {"AlignedArrays": callee_aligned_arrays}
+
+
+def chunk_scan_contract():
+    g = GlueGhost()
+
+    def params(ex):
+        g.generic_aggregate.clear()
+        return {"inp": AARec(sym_seq("values", V.Val), sym_seq("codes")), "axis": 0, "agg": scan_agg(), "dtype": Opaque("dtype"), "keepdims": None}
+
+    def requires(ex, env):
+        return [env["inp"].array.length == env["inp"].group_idx.length, env["inp"].array.length >= 0]
+
+    def ensures(ex, env, res):
+        e = env["__entry__"]
+        ok_call = len(g.generic_aggregate) == 1
+        cl = [("one_grouped_scan_of_the_block", z3.BoolVal(ok_call))]
+        if ok_call:
+            a, k, out = g.generic_aggregate[0]
+            cl += [("scans_the_values_by_the_codes_of_the_block", z3.BoolVal(a[0] is e["inp"].group_idx and a[1] is e["inp"].array)),
+                   ("uses_the_scan_of_the_blueprint_on_the_flox_engine_with_its_identity", z3.BoolVal(k.get("func") == e["agg"].fields["scan"] and k.get("engine") == "flox" and k.get("fill_value") is e["agg"].fields["identity"])),
+                   ("result_carries_the_scanned_values_and_the_same_codes", z3.BoolVal(res.fields["result"] is not None and res.fields["result"].array is out and res.fields["result"].group_idx is e["inp"].group_idx)),
+                   ("a_scanned_block_has_no_state_yet", z3.BoolVal(res.fields["state"] is None))]
+        return cl
+
+    return Contract(qualname="chunk_scan", file="flox/core.py", prefix="C10.chunk_scan", params=params, requires=requires, ensures=ensures, serves=("C10",), assumed=("generic_aggregate returns an array aligned with its input",)), glue_callees(g)
+
+
+def grouped_reduce_contract():
+    g = GlueGhost()
+
+    def params(ex):
+        g.chunk_reduce.clear()
+        arr = sym_seq("values", V.Val)
+        return {"inp": AARec(arr, sym_seq("codes")), "agg": scan_agg(), "axis": 0, "keepdims": None}
+
+    def requires(ex, env):
+        return [env["inp"].array.length == env["inp"].group_idx.length, env["inp"].array.length >= 0]
+
+    def ensures(ex, env, res):
+        e = env["__entry__"]
+        ok_call = len(g.chunk_reduce) == 1
+        cl = [("one_grouped_reduction_of_the_block", z3.BoolVal(ok_call))]
+        if ok_call:
+            a, k, groups, vals = g.chunk_reduce[0]
+            f = k.get("func")
+            cl += [("reduces_the_values_by_the_codes_of_the_block", z3.BoolVal(a[0] is e["inp"].array and a[1] is e["inp"].group_idx)),
+                   ("uses_the_reduction_of_the_blueprint_with_its_identity_for_the_groups_present", z3.BoolVal(isinstance(f, tuple) and len(f) == 1 and f[0] == e["agg"].fields["reduction"] and k.get("fill_value") is e["agg"].fields["identity"] and k.get("expected_groups", 0) is None and k.get("engine") == "flox")),
+                   ("state_carries_the_reduced_values_with_their_groups", z3.BoolVal(res.fields["state"] is not None and res.fields["state"].array is vals and res.fields["state"].group_idx is groups)),
+                   ("a_reduced_block_has_no_result", z3.BoolVal(res.fields["result"] is None))]
+        return cl
+
+    return Contract(qualname="grouped_reduce", file="flox/core.py", prefix="C10.grouped_reduce", params=params, requires=requires, ensures=ensures, serves=("C10",), assumed=("chunk_reduce returns one intermediate per requested function, aligned with the groups found",)), glue_callees(g)
+
+
+def finalize_scan_contract(has_result):
+    def params(ex):
+        r = AARec(sym_seq("values", V.Val), sym_seq("codes")) if has_result else None
+        s_ = AARec(sym_seq("state_values", V.Val), sym_seq("state_codes"))
+        return {"block": Record("ScanState", state=s_, result=r), "dtype": Opaque("dtype")}
+
+    def ensures(ex, env, res):
+        e = env["__entry__"]
+        i = fresh("i")
+        r = e["block"].fields["result"]
+        return [("only_for_a_block_with_a_result", z3.BoolVal(has_result)), ("returns_the_scanned_values_of_the_block", z3.And(res.length == r.array.length, forall(i, z3.Implies(in_range(i, 0, res.length), res.at(i) == r.array.at(i)))) if r is not None else z3.BoolVal(False))]
+
+    def exc_ensures(ex, env, exc):
+        return [("asserts_only_for_a_block_without_result", z3.BoolVal(not has_result))]
+
+    return Contract(qualname="_finalize_scan", file="flox/core.py", prefix=f"C10.finalize_scan.{'result' if has_result else 'noresult'}", params=params, ensures=ensures, raises=("AssertionError",) if not has_result else (), exc_ensures=exc_ensures if not has_result else None, serves=("C10",),
+                    assumed=("ndarray.astype keeps the values (the dtype rules are C11's)",)), {}
+
+
+def all_scan_glue():
+    return [zip_contract(), chunk_scan_contract(), grouped_reduce_contract(), finalize_scan_contract(True)]
+
+
+def dask_groupby_scan_contract():
+    """Protocol obligations of dask_groupby_scan: how the pieces proved above are wired into dask's parallel prefix."""
+    from .config import ArrayRec
+
+    g = GlueGhost()
+
+    def params(ex):
+        for l in (g.map_blocks, g.scan, g.tokenize):
+            l.clear()
+        return {"array": ArrayRec("array", True, 1, z3.StringVal("f")), "by": ArrayRec("by", z3.Bool("by_is_dask"), 1, z3.StringVal("i")), "axes": (0,), "agg": scan_agg()}
+
+    def ensures(ex, env, res):
+        e = env["__entry__"]
+        cl = [("labels_zipped_with_the_data_then_scanned_then_unzipped", z3.BoolVal(len(g.map_blocks) == 2 and len(g.scan) == 1))]
+        if not (len(g.map_blocks) == 2 and len(g.scan) == 1):
+            return cl
+        (f1, a1, k1, o1), (f2, a2, k2, o2) = g.map_blocks
+        sk = g.scan[0]
+        unified = getattr(ex, "_unified", None)
+        cl += [
+            ("zip_gets_codes_first_and_data_second", z3.BoolVal(getattr(f1, "name", None) == "_zip" and unified is not None and len(a1) == 2 and a1[0] is unified[1] and a1[1] is unified[0])),
+            ("zip_layer_name_is_derived_from_both_inputs", z3.BoolVal(len(g.tokenize) == 1 and set(map(id, g.tokenize[0])) == {id(unified[0]), id(unified[1])} and isinstance(k1.get("name"), tuple) and k1["name"][0] == "groupby-scan-preprocess-" and k1["name"][1] is g.tokenize[0])),
+            ("scan_runs_over_the_zipped_blocks_along_the_axis", z3.BoolVal(sk.get("x") is o1 and sk.get("axis") == 0 and sk.get("method") == "blelloch")),
+            ("in_block_scan_is_chunk_scan_with_the_blueprint", z3.BoolVal(_is_partial(sk.get("func"), "chunk_scan", e["agg"]))),
+            ("per_block_state_is_grouped_reduce_with_the_blueprint", z3.BoolVal(_is_partial(sk.get("preop"), "grouped_reduce", e["agg"]))),
+            ("combine_is_scan_binary_op_with_the_blueprint", z3.BoolVal(_is_partial(sk.get("binop"), "scan_binary_op", e["agg"]))),
+            ("identity_and_dtype_of_the_blueprint", z3.BoolVal(sk.get("ident") is e["agg"].fields["identity"] and sk.get("dtype") is e["agg"].fields["dtype"])),
+            ("unzipped_with_finalize_scan", z3.BoolVal(_is_partial(f2, "_finalize_scan", None) and len(a2) == 1 and a2[0] is g.scan_out)),
+            ("returns_the_unzipped_array", z3.BoolVal(res is o2)),
+        ]
+        return cl
+
+    def _is_partial(f, name, agg):
+        from ..pyvc.prims import PartialVal, RepoFunc
+
+        if not isinstance(f, PartialVal):
+            return False
+        fn = f.fn
+        nm = getattr(fn, "name", None) or (fn.path.split(".")[-1] if isinstance(fn, ModRef) else None)
+        return nm == name and (agg is None or f.kwargs.get("agg") is agg)
+
+    def callees():
+        from .config import ArrayRec
+
+        def unify(ex, st, a, k, node):
+            arr, by = a
+            ex._unified = (ArrayRec("array.unified", True, 1, arr.dkind), ArrayRec("by.unified", True, 1, by.dkind))
+            ex._unified[1]._meta_objs = ex._unified[0].__dict__.setdefault("_meta_objs", {})  # unified: chunked alike
+            return ex._unified
+
+        return {"_unify_chunks": unify}
+
+    def models(prims):
+        from .config import ArrayRec
+
+        def map_blocks(ex, st, a, k, node):
+            out = ArrayRec(f"mapped{len(g.map_blocks)}", True, 1, z3.StringVal("f"))
+            out._meta_objs = a[1].__dict__.setdefault("_meta_objs", {})  # map_blocks keeps the chunk structure of its (unified) inputs
+            g.map_blocks.append((a[0], list(a[1:]), dict(k), out))
+            return out
+
+        def cumreduction(ex, st, a, k, node):
+            g.scan.append(dict(k))
+            g.scan_out = ArrayRec("accumulated", True, 1, z3.StringVal("f"))
+            g.scan_out._meta_objs = k["x"].__dict__.setdefault("_meta_objs", {})  # a scan keeps the chunk structure
+            return g.scan_out
+
+        class Tok:
+            def __init__(self, args):
+                self.args = args
+
+            def pyvc_binop(self, ex, st, op, other, flip, node, prims):
+                # "prefix" + token: the layer name as (prefix, token ingredients)
+                return (other, self.args) if flip and isinstance(other, str) else (self.args, other)
+
+        def tokenize(ex, st, a, k, node):
+            t = tuple(a)
+            g.tokenize.append(t)
+            return Tok(t)
+
+        prims.register("dask.array.map_blocks", map_blocks)
+        prims.register("dask.array.reductions.cumreduction", cumreduction)
+        prims.register("dask.base.tokenize", tokenize)
+
+    c = Contract(qualname="dask_groupby_scan", file="flox/core.py", prefix="C10.dask_groupby_scan", params=params, ensures=ensures, raises=("NotImplementedError",), serves=("C10", "C03", "C13"),
+                 assumed=("dask.array.reductions.cumreduction(method='blelloch') computes the inclusive prefix of binop over preop(block) and applies func to the blocks", "dask.array.map_blocks", "result.chunks == array.chunks (in-code assert) is a fact about dask's chunk metadata"))
+    return c, callees(), models
